@@ -18,6 +18,7 @@ def run(ctx):
     def add(**kw):
         kw["id"] = len(cases)
         kw.setdefault("a", [0, 1]); kw.setdefault("b", [0, 1]); kw.setdefault("ws", [])
+        kw.setdefault("x", {"op": "leaf", "q": [0, 1], "a": []}); kw.setdefault("wa", [1, 1, 0]); kw.setdefault("wb", [1, 1, 0])
         cases.append(kw)
     for a, b in itertools.product(vals, repeat=2):
         add(op="plus", a=a, b=b)
@@ -37,6 +38,67 @@ def run(ctx):
         add(op="ad_complement", ws=ws)
     add(op="one")
     add(op="zero")
+    # compound expressions (the laws as pairs of expressions, and random trees); every intermediate value stays in [0, 1]
+    from fractions import Fraction
+
+    def leaf(k):
+        return {"op": "leaf", "q": [k, 10], "a": []}
+
+    def val(e):
+        if e["op"] == "leaf":
+            return Fraction(e["q"][0], e["q"][1])
+        a = [val(x) for x in e["a"]]
+        if any(x is None for x in a):
+            return None
+        if e["op"] == "plus":
+            r = a[0] + a[1]
+        elif e["op"] == "times":
+            r = a[0] * a[1]
+        elif e["op"] == "negate":
+            r = 1 - a[0]
+        else:
+            if a[1] == 0 or a[0] > a[1]:
+                return None
+            r = a[0] / a[1]
+        if r < 0 or r > 1 or r.numerator > 30000 or r.denominator > 30000:
+            return None
+        return r
+
+    def node(op, *a):
+        return {"op": op, "a": list(a), "q": [0, 1]}
+
+    def rnd(depth):
+        if depth == 0 or rng.random() < 0.25:
+            return leaf(rng.randint(0, 10))
+        op = rng.choice(["plus", "plus", "times", "times", "negate", "normalize"])
+        if op == "negate":
+            return node(op, rnd(depth - 1))
+        return node(op, rnd(depth - 1), rnd(depth - 1))
+    nx = 0
+    while nx < ctx.pick(1500, 20000):
+        e = rnd(rng.randint(2, 4))
+        if e["op"] != "leaf" and val(e) is not None:
+            add(op="expr", x=e)
+            nx += 1
+    for _ in range(ctx.pick(300, 3000)):
+        a, b, c = (leaf(rng.randint(0, 10)) for _ in range(3))
+        for e in (node("plus", node("plus", a, b), c), node("plus", a, node("plus", b, c)), node("plus", node("plus", c, a), b),
+                  node("times", node("times", a, b), c), node("times", a, node("times", b, c)),
+                  node("times", a, node("plus", b, c)), node("plus", node("times", a, b), node("times", a, c)),
+                  node("times", node("plus", b, c), a), node("times", node("plus", a, b), node("negate", c)),
+                  node("plus", node("times", node("plus", a, b), node("negate", c)), node("times", c, a))):
+            if val(e) is not None:
+                add(op="expr", x=e)
+    # operands of very different magnitude (products of small factors in the probability domain, raw logs in the log domain)
+    for ea in (0, 1, 5, 9, 20, 100):
+        for gap in (0, 1, 8, 12, 15, 16, 17, 18, 20, 30, 40, 100, 150):
+            for na, nb in ((3, 7), (10, 1), (1, 10), (5, 5)):
+                if ea + gap <= 280:
+                    add(op="wide_plus", wa=[na, 10, ea], wb=[nb, 10, ea + gap])
+                    add(op="wide_plus", wa=[nb, 10, ea + gap], wb=[na, 10, ea])
+                if 2 * ea + gap <= 280:
+                    add(op="wide_times", wa=[na, 10, ea], wb=[nb, 10, ea + gap])
+                    add(op="wide_times", wa=[nb, 10, ea + gap], wb=[na, 10, ea])
     exp = tlc.judge_batch("SemiringA", cases, nproc=ctx.nproc, tag="c12")
     chunk = 400
     res = pl.run_jobs([("semiring_ops", {"cases": cases[i:i + chunk]}) for i in range(0, len(cases), chunk)],
@@ -52,7 +114,20 @@ def run(ctx):
             for name in ("prob", "log", "symbolic"):
                 ctx.evaluations += 1
                 got = o[name]
-                desc = "%s %s(%s, %s, %s)" % (name, c["op"], c["a"], c["b"], c["ws"])
+                if c["op"].startswith("wide_"):
+                    import math
+                    desc = "%s %s(%s/%s * 1e-%s, %s/%s * 1e-%s)" % ((name, c["op"][5:]) + tuple(c["wa"]) + tuple(c["wb"]))
+                    if not got["ok"]:
+                        ctx.violation({"clause": "operation-raised", "semiring": name, "op": c["op"]}, "%s raised %s" % (desc, got["err"]), {"case": c})
+                        continue
+                    want = math.log(e["n"] / e["d"]) - e["e"] * math.log(10.0)
+                    # plus: the exact sum is the larger operand times a factor in [1, 2] (gap 0) / [1, 1 + 10^(1-gap)]
+                    slack = math.log(2.0) if e["gap"] == 0 and c["op"] == "wide_plus" else (math.log1p(10.0 ** (1 - e["gap"])) if c["op"] == "wide_plus" else 0.0)
+                    if not (want - 1e-7 * (1 + abs(want)) <= got["logv"] <= want + slack + 1e-7 * (1 + abs(want))):
+                        ctx.violation({"clause": "wrong-value", "semiring": name, "op": c["op"]},
+                                      "%s: log of the result is %r, exact value has log in [%r, %r]" % (desc, got["logv"], want, want + slack), {"case": c})
+                    continue
+                desc = "%s %s(%s, %s, %s)" % (name, c["op"], c["a"], c["b"], c["ws"]) if c["op"] != "expr" else "%s %s" % (name, json.dumps(c["x"]))
                 if not e["def"]:
                     continue          # normalisation by zero: undefined
                 if c["op"] == "plus" and e["n"] > e["d"] and name != "prob":
